@@ -4,7 +4,8 @@ mod hash_union;
 mod models;
 mod panic;
 
-use syn::{Data, DeriveInput, Meta};
+use proc_macro2::{Ident, Span};
+use syn::{Data, DeriveInput, GenericParam, Generics, Meta};
 
 use super::TraitHandler;
 use crate::Trait;
@@ -31,4 +32,20 @@ impl TraitHandler for HashHandler {
             },
         }
     }
+}
+
+/// The name of the `Hasher` type parameter of the generated `hash` method, which must not be the
+/// same as a generic parameter of the type itself.
+fn hasher_ident(generics: &Generics) -> Ident {
+    let mut name = String::from("H");
+
+    while generics.params.iter().any(|param| match param {
+        GenericParam::Type(ty) => ty.ident == name,
+        GenericParam::Const(c) => c.ident == name,
+        GenericParam::Lifetime(_) => false,
+    }) {
+        name.push('H');
+    }
+
+    Ident::new(&name, Span::call_site())
 }
